@@ -296,10 +296,15 @@ def check_subfaces_order(repo, res):
         raise AnalysisError("SimplicialComplex._subfaces not found (anchor vanished)")
     # all=False branch: combinations(simplex, size - 1) in lexicographic order: the i-th face omits vertex size-1-i
     ok = False
+    sizes = {"size"}
+    for st in own_statements(f.node):
+        if isinstance(st, ast.Assign) and isinstance(st.targets[0], ast.Name) and isinstance(st.value, ast.Call) and getattr(st.value.func, "id", None) == "len":
+            sizes.add(st.targets[0].id)
     for n in ast.walk(f.node):
-        if isinstance(n, ast.For) and isinstance(n.iter, ast.Call) and getattr(n.iter.func, "id", None) == "combinations" and len(n.iter.args) == 2:
-            r = n.iter.args[1]
-            if isinstance(r, ast.BinOp) and isinstance(r.op, ast.Sub) and isinstance(r.left, ast.Name) and r.left.id == "size" and isinstance(r.right, ast.Constant) and r.right.value == 1 and isinstance(n.iter.args[0], ast.Name) and n.iter.args[0].id == f.params[1]:
+        if isinstance(n, ast.Call) and getattr(n.func, "id", None) == "combinations" and len(n.args) == 2:
+            r = n.args[1]
+            size_minus_1 = isinstance(r, ast.BinOp) and isinstance(r.op, ast.Sub) and isinstance(r.right, ast.Constant) and r.right.value == 1 and ((isinstance(r.left, ast.Name) and r.left.id in sizes) or (isinstance(r.left, ast.Call) and getattr(r.left.func, "id", None) == "len"))
+            if size_minus_1 and isinstance(n.args[0], ast.Name) and n.args[0].id == f.params[1]:
                 ok = True
     res.inst("B-FACE", "_subfaces(all=False) yields combinations(simplex, size - 1) of the simplex in the given order", ok)
     if not ok:
